@@ -79,6 +79,9 @@ class Registry:
         self.identity_calls = set() # inert wrappers that return their first argument (progbar(it))
         self.impure_props = set()   # property names whose getters have effects (hoisted as calls)
         self.pure_ext = set()       # external callables modelled as uninterpreted *functions* of their arguments
+        self.no_raise_ext = set()   # pure externals additionally assumed never to raise (listed in the evidence)
+        self.prop_meta = {}         # property id -> dict(bounded=[...], bounded_in_quick=str, not_decided=[...], assumptions=[...], trusted=[...])
+        self.extra_checks = {}      # property id -> [callable(engine, pid) -> [VC]]
         self.externals = {}     # dotted name -> model callable(engine, st, args, kwargs, node) -> outcomes / SV
 
     def add(self, key, **kw):
